@@ -393,7 +393,7 @@ func newWorld(sc *kernel.Scenario, res *kernel.Result, trace, check bool) *world
 	}
 	for i := 0; i < nch; i++ {
 		c := &chn{i: i, n: int(chanCfg(sc, i, "n", 2)), own: int(chanCfg(sc, i, "own", 0)), app: int(chanCfg(sc, i, "app", 0))}
-		if c.n < 2 || c.n > 12 {
+		if c.n < 2 || c.n > 70 {
 			c.n = 2
 		}
 		if c.own < 0 || c.own >= c.n {
